@@ -255,3 +255,18 @@ def eq_lattice(ia, ib, k):
     else:
         want = False
     return bool(ua == ub) == want and bool(ub == ua) == want and bool(ua != ub) == (not want) and bool(ub != ua) == (not want)
+
+
+def order_lattice(ia, ib, k):
+    """< <= > >= between a quantity and a quantity of the same units, or a plain number (taking the quantity's units), are EXACTLY the
+    comparisons of the magnitudes - including at equality, for both operand orders"""
+    import operator as O
+    us = "AGBJ"[k % 4]
+    d = _EQ_DIMS[(k // 4) % len(_EQ_DIMS)]
+    a, b = _EQ_LATTICE[ia], _EQ_LATTICE[ib]
+    qa, qb = uv(a, us, d), uv(b, us, d)
+    for f in (O.lt, O.le, O.gt, O.ge):
+        want = f(a, b)
+        if bool(f(qa, qb)) != want or bool(f(qa, b)) != want or bool(f(a, qb)) != want:
+            return False
+    return True
